@@ -208,6 +208,7 @@ def main(tier, seed):
     import scenarios
     import yprog
     fam = scenarios.capture_scenarios()[::3] + scenarios.capture_order_scenarios() + scenarios.exception_scenarios() + scenarios.exit_path_scenarios()
+    fam += scenarios.thrown_value_scenarios() + scenarios.handler_intact_scenarios()[::2] + scenarios.loop_state_scenarios()[::3] + scenarios.range_cache_scenarios()
     n = 300 if tier == "quick" else 3000
     fam += scenarios.fiber_scenarios(random.Random(seed), n, nfib=3) + scenarios.class_scenarios(random.Random(seed), n)
     fam += scenarios.iteration_scenarios(random.Random(seed), n) + scenarios.hashmap_scenarios(random.Random(seed), n)
